@@ -28,6 +28,7 @@ func TestVerifC19(t *testing.T) {
 		return
 	}
 	rng := hk.NewRNG(hk.Seed(), "c19")
+	hostilePrelude(hk.NewRNG(hk.Seed(), "prelude"))
 	d := randScalar(rng)
 	P := refPub(d)
 	px, py := ref.B32(P.X), ref.B32(P.Y)
@@ -170,6 +171,49 @@ func TestVerifC19(t *testing.T) {
 		}
 		r.Eval(cls + fmt.Sprintf(",%s,chunk=%d", errNames[c.ek], c.chunk))
 	})
+
+	// a first candidate that is in range but rejected LATE (r=0, r+k=n, s=0; digest solved from it), then
+	// the source fails at every offset of the redraw: error and NOTHING else must come back
+	for _, rule := range []string{"r=0", "r+k=n", "s=0"} {
+		for rep := 0; rep < hk.N(2, 6); rep++ {
+			k1 := randScalar(rng)
+			x1 := ref.BaseMulFast(k1).X
+			var rT *big.Int
+			switch rule {
+			case "r=0":
+				rT = bi(0)
+			case "r+k=n":
+				rT = new(big.Int).Sub(nI, k1)
+			default:
+				rT = ref.ModN(new(big.Int).Mul(k1, ref.InvN(d)))
+			}
+			eL := ref.B32(ref.ModN(new(big.Int).Sub(rT, x1)))
+			stream := append(ref.B32(k1), ref.B32(randScalar(rng))...)
+			for failAt := 32; failAt < 64; failAt += 1 + rep {
+				for ek := range errKinds {
+					rd := newScript(stream)
+					rd.failAt, rd.failErr, rd.failWithData = failAt, errKinds[ek], failAt%2 == 0
+					model := ref.SM2Sign(d, eL, stream[:failAt])
+					var rr, ss []byte
+					var err error
+					p, pm, _, _ := hk.Try(func() { rr, ss, err = SignHashed(rd, priv, eL) })
+					det := hk.D{"rule": rule, "stream": hk.Hex(stream), "fail_at": failAt, "e": hk.Hex(eL), "priv": hk.Hex(priv), "r": hexOrNil(rr), "s": hexOrNil(ss), "error": errStr(err)}
+					switch {
+					case !model.Short || len(model.Rejected) != 1:
+						r.Inconclusive("c19: late-rejection stream not rejected by the model as planned")
+					case p:
+						det["panic"] = pm
+						r.Violation("panic-on-failing-source:SignHashed:after-late-rejection", det)
+					case err == nil:
+						r.Violation("signature-returned-although-source-failed:SignHashed:after-late-rejection", det)
+					case rr != nil || ss != nil:
+						r.Violation("signature-returned-with-error:SignHashed:after-late-rejection:"+rule, det)
+					}
+					r.Eval(fmt.Sprintf("SignHashed:late-rejection=%s,fail=cand1+%d", rule, failAt-32))
+				}
+			}
+		}
+	}
 
 	// nil source
 	{
